@@ -182,6 +182,8 @@ pub struct Module {
     pub type_imports: bool,
     /// Raw text appended at the end of the file.
     pub trailer: String,
+    /// Removed from the project (kept in the vector so that indices stay valid).
+    pub deleted: bool,
 }
 
 impl Module {
@@ -567,6 +569,7 @@ impl Project {
 
     pub fn files(&self) -> Vec<(String, String)> {
         (0..self.modules.len())
+            .filter(|m| !self.modules[*m].deleted)
             .map(|m| (self.modules[m].rel_path(), self.module_text(m)))
             .collect()
     }
